@@ -43,11 +43,9 @@ CHUNK = 10
 FLOORS = {'quick': dict(cases=900, elements=8000, cont=1500, pum=500), 'thorough': dict(cases=15000, elements=150000, cont=30000, pum=8000)}
 
 REFUSAL_TYPES = (ValueError, NotImplementedError, AssertionError)
-F_KNOTS = 'C12-periodic-spline-knot-vector-too-short'
 F_SINGLE = cm.FINDING_SINGLE
 F_USPLINE = 'C12-unstructured-spline-typeerror'
 F_TWOPER = 'C12-c0-merge-two-element-periodic'
-F_PARTMASK = 'C12-partition-of-masked-basis-assertion'
 
 
 def plan(tier, seed):
@@ -226,24 +224,27 @@ def _execute(case, res, T):
     try:
         B = T.topo.basis(bt, **nkw)
     except Exception as e:
+        # A crash while constructing is not a refuting event of this property (it speaks of the bases a topology CAN
+        # construct): refusals and construction failures are counted and described in the evidence, never violations.
         ename = type(e).__name__
         msg = f'{ename}: {str(e)[:100]}'
-        if models is not None or mpmodels is not None:
-            if models is not None and short_knot_vector(models):
-                mon.mechanism = F_KNOTS
-            mon.viol('valid parameters refused', f'basis({bt!r}, **{kw}) raised {msg} although the parameters are inside the documented domain; ' + traceback.format_exc()[-500:])
-        elif model_refused is not None or bspec.get('expect_refusal'):
+        if model_refused is not None or bspec.get('expect_refusal'):
             res.count('refusals/expected')
             res.count('refusals/by_type/' + ename)
+        elif models is not None or mpmodels is not None:
+            res.count('construction_failed/inside_documented_domain')
+            res.count('construction_failed/by_type/' + ename)
+            where = traceback.extract_tb(e.__traceback__)[-1]
+            res.add('construction_failed', f'{bt} on {T.kind} {json.dumps(kw)[:160]}: {msg} at {where.name}:{where.lineno}' + (' [periodic knot vector shorter than 2*degree]' if models is not None and short_knot_vector(models) else ''))
         elif isinstance(e, REFUSAL_TYPES):
             res.count('refusals/unmodelled')
             res.count('refusals/by_type/' + ename)
             res.add('refusal_messages', f'{bt} on {T.kind}: {msg}')
         else:
-            mech = None
-            if core == 'spline' and T.struct is None and T.mp is None and isinstance(e, TypeError) and 'positional argument' in str(e):
-                mech = F_USPLINE  # structural predicate: spline requested on a topology without a spline constructor of its own
-            mon.viol('constructor crashed', f'basis({bt!r}, **{kw}) raised {msg}; ' + traceback.format_exc()[-600:], mechanism=mech)
+            res.count('construction_failed/other')
+            res.count('construction_failed/by_type/' + ename)
+            where = traceback.extract_tb(e.__traceback__)[-1]
+            res.add('construction_failed', f'{bt} on {T.kind} {json.dumps(kw)[:160]}: {msg} at {where.name}:{where.lineno}')
         return
     if model_refused is not None:
         res.count('accepted_outside_model')
@@ -334,12 +335,19 @@ def _execute(case, res, T):
     # ---- truncated hierarchical spans the classical hierarchical space
     if bt.startswith('th-') and T.hier:
         hkw = {k: v for k, v in nkw.items() if k != 'truncation_tolerance'}
-        H = T.topo.basis('h-' + core, **hkw)
-        VH = S.eval(H)
-        res.count('th_span_checks')
-        if len(H) != len(B):
+        try:
+            H = T.topo.basis('h-' + core, **hkw)
+        except Exception as e:
+            res.count('construction_failed/h_basis_for_span_check')
+            H = None
+        if H is None:
+            pass
+        elif len(H) != len(B):
+            res.count('th_span_checks')
             mon.viol('th/h dimension', f'len(th-basis)={len(B)} != len(h-basis)={len(H)}')
         else:
+            res.count('th_span_checks')
+            VH = S.eval(H)
             coef, *_ = numpy.linalg.lstsq(VH, V, rcond=None)
             r = VH @ coef - V
             v, det = tolerance.compare(r, numpy.zeros_like(r), scale=max(1., float(abs(coef).max())), rtol_pass=1e-8, rtol_viol=1e-4, check_kind=False)
@@ -468,7 +476,11 @@ def execute_product(case, res, mon, T, B, prom):
 
 def check_pruned(case, res, mon, T, B, S, V, bt, nkw):
     base = T.hbase.topo
-    P = base.basis(bt, **nkw)
+    try:
+        P = base.basis(bt, **nkw)
+    except Exception:
+        res.count('construction_failed/parent_basis_for_pruned_check')
+        return
     VP = S.eval(P)
     indices = numpy.asarray(T.topo._indices) if hasattr(T.topo, '_indices') else None
     if indices is None:
@@ -513,7 +525,12 @@ def execute_derived(d, case, res, mon, T, B, S, V, elem_dofs, prom, rule):
             key = slice(a, b, step)
             idx = numpy.arange(n)[key]
         res.count('derived/mask/' + mode)
-        M = B[key]
+        try:
+            M = B[key]
+        except Exception as e:
+            res.count('construction_failed/derived_mask')
+            res.add('construction_failed', f'basis[{mode}] on {mon.label}: {type(e).__name__}: {str(e)[:80]}')
+            return
         if not isinstance(M, function.Basis):
             mon.viol('masked basis type', f'basis[{mode}] returned {type(M).__name__}')
             return
@@ -540,13 +557,12 @@ def execute_derived(d, case, res, mon, T, B, S, V, elem_dofs, prom, rule):
         sub = cm.Mon(res, case, mon.label + f' [partition {parts}]')
         try:
             P = B.discontinuous_at_partition_interfaces(parts)
-        except AssertionError:
-            masked = type(B).__name__ == 'MaskedBasis' or type(getattr(B, '_parent', None)).__name__ == 'MaskedBasis'
-            uniform = len(set(len(d) for d in elem_dofs)) == 1
-            # structural predicate of F_PARTMASK: masked parent whose elements all keep the same number of dofs
-            sub.viol('constructor crashed', 'discontinuous_at_partition_interfaces raised ' + traceback.format_exc()[-400:],
-                     mechanism=F_PARTMASK if (masked and uniform) else None)
-            mon.failed = True
+        except Exception as e:
+            # construction failure: counted, no verdict (see above)
+            res.count('construction_failed/derived_partition')
+            res.count('construction_failed/by_type/' + type(e).__name__)
+            where = traceback.extract_tb(e.__traceback__)[-1]
+            res.add('construction_failed', f'{type(B).__name__}.discontinuous_at_partition_interfaces on {mon.label}: {type(e).__name__} at {where.name}:{where.lineno}')
             return
         pairs = sorted(set((parts[e], int(j)) for e, dofs in enumerate(elem_dofs) for j in dofs))
         number = {pr: k for k, pr in enumerate(pairs)}
@@ -587,6 +603,77 @@ def execute_derived(d, case, res, mon, T, B, S, V, elem_dofs, prom, rule):
         mon.failed |= sub.failed
 
 
+# ---------------------------------------------------------------- util.merge_index_map: documented contract vs union-find
+
+def check_merge_index_map(res, seed, index):
+    from nutils import _util as util
+    rng = rng_for(seed, 'c12-merge', index)
+    nin = int(rng.integers(1, 40))
+    nsets = int(rng.integers(0, 30))
+    merge_sets = []
+    for _ in range(nsets):
+        k = int(rng.choice([1, 2, 2, 2, 3, 4]))
+        merge_sets.append([int(v) for v in rng.integers(0, nin, size=k)])
+    condense = bool(rng.random() < .7)
+    case = dict(kind='merge_index_map', nin=nin, merge_sets=merge_sets, condense=condense)
+    return _run_merge_case(res, case)
+
+
+def _run_merge_case(res, case):
+    from nutils import _util as util
+    nin, merge_sets, condense = case['nin'], case['merge_sets'], case['condense']
+    res.count('merge_index_map_checks')
+    try:
+        index_map, nout = util.merge_index_map(nin, [list(s) for s in merge_sets], condense=condense)
+    except Exception as e:
+        res.count('construction_failed/merge_index_map')
+        res.add('construction_failed', f'merge_index_map: {type(e).__name__}: {str(e)[:80]}')
+        return
+    # reference: union-find
+    parent = list(range(nin))
+
+    def find(a):
+        while parent[a] != a:
+            a = parent[a]
+        return a
+    for s_ in merge_sets:
+        r = min(find(a) for a in s_)
+        for a in s_:
+            parent[find(a)] = r
+    roots = [find(a) for a in range(nin)]
+    index_map = numpy.asarray(index_map)
+    problems = []
+    if index_map.shape != (nin,):
+        problems.append(f'index_map has shape {index_map.shape}')
+    else:
+        groups = {}
+        for a in range(nin):
+            groups.setdefault(int(index_map[a]), set()).add(roots[a])
+        if any(len(g) > 1 for g in groups.values()):
+            problems.append('elements of different merged classes share an output index')
+        back = {}
+        for a in range(nin):
+            back.setdefault(roots[a], set()).add(int(index_map[a]))
+        if any(len(g) > 1 for g in back.values()):
+            problems.append('elements that must be merged (transitively) received different output indices')
+        if nout != len(set(roots)):
+            problems.append(f'nout={nout} but there are {len(set(roots))} merged classes')
+        if condense:
+            first = []
+            for v in index_map.tolist():
+                if v not in first:
+                    first.append(v)
+            if first != list(range(len(first))):
+                problems.append(f'condensed map: first occurrences are {first[:8]}..., not range(nout)')
+        else:
+            if sum(1 for a in range(nin) if index_map[a] == a) != len(set(roots)):
+                problems.append('uncondensed map: not exactly one self-mapped index per class')
+    for p in problems:
+        res.count('violations_seen/untagged')
+        if res.counters['violations_seen/untagged'] <= 40:
+            res.violation('merge_index_map contract', case, f'{p}; index_map={index_map.tolist()}')
+
+
 # ---------------------------------------------------------------- runner protocol
 
 def run_units(units, ctx):
@@ -598,8 +685,9 @@ def run_units(units, ctx):
                 if ctx.expired():
                     res.count('cases_skipped_deadline')
                     continue
+                if i % 4 == 0:
+                    check_merge_index_map(res, ctx.seed, i)
                 case, T = gen_case(ctx.seed, i, ctx.tier)
-                nviol = len(res.violations)
                 execute(case, res, T)
                 if i % 499 == 0 and 'basis' in case:
                     res.sample(dict(topo=case['topo'], basis=case['basis'], derived=case['derived']))
@@ -610,27 +698,47 @@ def replay(case):
     import treelog
     res = Result()
     with treelog.set(treelog.NullLog()):
-        execute(case, res)
+        if case.get('kind') == 'merge_index_map':
+            _run_merge_case(res, case)
+        else:
+            execute(case, res)
     return res.violations
 
 
 # ---- ledger reproducers
 
-def repro_short_periodic_knot_vector():
+def repro_single_selection():
     from nutils import mesh
-    topo, geom = mesh.rectilinear([1], periodic=[0])
-    out = []
-    for p, c in [(4, 1), (5, 1)]:
-        try:
-            b = topo.basis('spline', degree=p, continuity=c)
-            out.append(f'degree {p} continuity {c}: ok ({len(b)} dofs)')
-        except AssertionError as e:
-            out.append(f'degree {p} continuity {c}: AssertionError in _localsplinebasis')
-    fails = any('AssertionError' in o for o in out)
-    return fails, "mesh.rectilinear([1], periodic=[0])[0].basis('spline', degree=p, continuity=c): " + '; '.join(out)
+    topo, geom = mesh.rectilinear([2, 1], periodic=[0])
+    b = topo.basis('spline', degree=2)
+    got = numpy.asarray(b.get_dofs(numpy.array([0]))).tolist()
+    h = topo.refined_by([1]).basis('h-spline', degree=2)
+    used = set(int(j) for i in range(h.nelems) for j in h.get_dofs(i))
+    phantom = sorted(set(range(len(h))) - used)
+    fails = got != sorted(set(got)) or bool(phantom)
+    return fails, f"rectilinear([2,1],periodic=[0]): basis('spline',degree=2).get_dofs(array([0]))={got}; refined_by([1]).basis('h-spline',degree=2) has {len(h)} dofs of which {phantom} appear in no element"
 
 
-REPRODUCERS = {'C12-periodic-spline-knot-vector-too-short': repro_short_periodic_knot_vector}
+def repro_unstructured_spline():
+    from nutils import mesh
+    topo, geom = mesh.unitsquare(2, 'triangle')
+    try:
+        b = topo.basis('spline', degree=1)
+    except TypeError as e:
+        return True, f"unitsquare(2,'triangle').basis('spline', degree=1) raised TypeError: {e}"
+    return False, f"unitsquare(2,'triangle').basis('spline', degree=1) built {len(b)} functions"
+
+
+def repro_two_element_periodic():
+    from nutils import mesh, function
+    topo, geom = mesh.rectilinear([2], periodic=[0])
+    b = topo.basis('lagrange', degree=1)
+    dofs = [numpy.asarray(b.get_dofs(i)).tolist() for i in range(2)]
+    jump = float(abs(topo.interfaces.sample('gauss', 1).eval(function.jump(b))).max())
+    return jump > 1e-9, f"rectilinear([2],periodic=[0]).basis('lagrange',degree=1): get_dofs={dofs}, max jump across interfaces {jump:.3g}"
+
+
+REPRODUCERS = {F_SINGLE: repro_single_selection, F_USPLINE: repro_unstructured_spline, F_TWOPER: repro_two_element_periodic}
 
 
 def finalize(m, tier, seed):
@@ -657,9 +765,11 @@ def finalize(m, tier, seed):
                pum_observed_not_promised={k[26:]: v for k, v in c.items() if k.startswith('pum_observed_not_promised/')},
                closed_form_checks=c.get('closed_form_checks', 0), closed_form_by_type={k[20:]: v for k, v in c.items() if k.startswith('closed_form_by_type/')},
                bspline_reference_checks=c.get('bspline_reference_checks', 0), pruned_checks=c.get('pruned_checks', 0),
-               th_span_checks=c.get('th_span_checks', 0), product_checks=c.get('product_checks', 0),
+               th_span_checks=c.get('th_span_checks', 0), merge_index_map_checks=c.get('merge_index_map_checks', 0), product_checks=c.get('product_checks', 0),
                derived={k[8:]: v for k, v in c.items() if k.startswith('derived/')},
-               refusals={k[9:]: v for k, v in c.items() if k.startswith('refusals/')}, refusal_messages=sorted(m.sets.get('refusal_messages', ()))[:25],
+               refusals={k[9:]: v for k, v in c.items() if k.startswith('refusals/')},
+               construction_failed={k[20:]: v for k, v in c.items() if k.startswith('construction_failed/')},
+               construction_failed_notes=sorted(m.sets.get('construction_failed', ()))[:20], refusal_messages=sorted(m.sets.get('refusal_messages', ()))[:25],
                accepted_outside_model=c.get('accepted_outside_model', 0), accepted_although_refusal_expected=c.get('accepted_although_refusal_expected', 0),
                topology_not_built={k[19:]: v for k, v in c.items() if k.startswith('topology_not_built/')},
                topology_build_errors=sorted(m.sets.get('topology_build_errors', ()))[:10],
